@@ -166,3 +166,19 @@ End Counts.
 Print Assumptions countNeut_tie.
 Print Assumptions NCPR_tie.
 Print Assumptions FCR_pH_tie.
+
+(* ---------- the public getters (SequenceParameters) are exactly a return of the backend call with their own arguments ---------- *)
+Lemma fw_get_countPos : g_fw_get_countPos = SReturn (ECall "SeqObj.countPos"%string []). Proof. reflexivity. Qed.
+Lemma fw_get_countNeg : g_fw_get_countNeg = SReturn (ECall "SeqObj.countNeg"%string []). Proof. reflexivity. Qed.
+Lemma fw_get_countNeut : g_fw_get_countNeut = SReturn (ECall "SeqObj.countNeut"%string []). Proof. reflexivity. Qed.
+Lemma fw_get_fraction_positive : g_fw_get_fraction_positive = SReturn (ECall "SeqObj.Fplus"%string []). Proof. reflexivity. Qed.
+Lemma fw_get_fraction_negative : g_fw_get_fraction_negative = SReturn (ECall "SeqObj.Fminus"%string []). Proof. reflexivity. Qed.
+Lemma fw_get_mean_hydropathy : g_fw_get_mean_hydropathy = SReturn (ECall "SeqObj.meanHydropathy"%string []). Proof. reflexivity. Qed.
+Lemma fw_get_uversky_hydropathy : g_fw_get_uversky_hydropathy = SReturn (ECall "SeqObj.uverskyHydropathy"%string []). Proof. reflexivity. Qed.
+Lemma fw_get_WW_hydropathy : g_fw_get_WW_hydropathy = SReturn (ECall "SeqObj.meanWWHydropathy"%string []). Proof. reflexivity. Qed.
+Lemma fw_get_fraction_disorder_promoting : g_fw_get_fraction_disorder_promoting = SReturn (ECall "SeqObj.fraction_disorder_promoting"%string []). Proof. reflexivity. Qed.
+Lemma fw_get_amino_acid_fractions : g_fw_get_amino_acid_fractions = SReturn (ECall "SeqObj.amino_acid_fraction"%string []). Proof. reflexivity. Qed.
+Lemma fw_get_molecular_weight : g_fw_get_molecular_weight = SReturn (ECall "SeqObj.molecular_weight"%string []). Proof. reflexivity. Qed.
+Lemma fw_get_PPII_propensity : g_fw_get_PPII_propensity = SReturn (ECall "SeqObj.FPPII_chain"%string [EVar "mode"%string]). Proof. reflexivity. Qed.
+Lemma fw_get_length : g_fw_get_length = SReturn (ELen (EVar "self.SeqObj.seq"%string)). Proof. reflexivity. Qed.
+Lemma fw_get_sequence : g_fw_get_sequence = SReturn (EVar "self.SeqObj.seq"%string). Proof. reflexivity. Qed.
